@@ -189,6 +189,10 @@ VALUES = [
     (r'std::forward<Result>\(r\)\.Error\(\)', 'RES_ERR(r)', 0),
     # std::get<T> with `using T = std::conditional_t<kIsException, std::exception_ptr, E>`: the alternative asked for is fixed by the callback's signature, not by a local the code may or may not keep
     (r'std::get<T>\(\s*std::forward<Result>\(r\)\.Internal\(\)\s*\)', 'RES_ALT(r, (kIsException ? RS_Exception : RS_Error))', 0),
+    # taking the predecessor's Result directly instead of through MoveOrConst<cond>(): a move is a move whatever the configuration, a plain / as_const read is a const read
+    (r'std::move\(\s*core\.Get\(\)\s*\)', 'MoveOrConst(core, 1)', 0),
+    (r'std::as_const\(\s*core\.Get\(\)\s*\)', 'MoveOrConst(core, 0)', 0),
+    (r'(?<![\w.>(])core\.Get\(\)', 'MoveOrConst(core, 0)', 0),
     (r'std::move\(r\)', 'RES_WHOLE(r)', 0),
     (r'r\.State\(\)', 'RES_STATE(r)', 0),
     (r'Result<Arg,\s*E>\{\s*Unit\{\}\s*\}', 'RES_UNIT()', 0),
@@ -824,6 +828,10 @@ def jobs(ctx):
     out = []
     if ctx.prop in ('C02', 'C12'):
         out += core_jobs(ctx, props)
+    elif ctx.prop in ('C06', 'C05'):
+        # how a step takes its input and its executor out of its predecessor: Call / Impl (C06: moved only out of a unique predecessor; C05: the inherited executor is copied out of a
+        # shared predecessor, moved only out of a unique one)
+        out += [j for j in core_jobs(ctx, props) if j.name.startswith('core/Call.') or j.name.startswith('core/Impl.')]
     elif ctx.prop == 'C03':
         # ownership layer only: Done (order of release) and CallImpl (functor destroyed exactly once on every path) for the value class
         out += [j for j in core_jobs(ctx, props) if j.name.startswith('core/Done.') or j.name.startswith('core/CallImpl.c2.') or j.name.startswith('core/CallResolveAsync.c2.')]
